@@ -42,7 +42,7 @@ theorem cellStep_rows (km : KModel α) (spec : ParamSpec) (lay : List (Nat × Na
     (h : cellStep km spec lay params inputs i st orow = .ok (s', o')) :
     s'.length = st.length ∧ o'.length = orow.length ∧
       ∀ o (ho : o < orow.length), ∃ row, o'[o]? = some row ∧ row.length = (orow[o]).length := by
-  unfold cellStep at h
+  rw [Props.C04.cellStep_blocks _ _ _ _ _ _ _ _ (Props.C04.cellStep_ok_blocks h)] at h
   cases hp : cellParams spec lay params i with
   | error e => simp [hp, bind, Except.bind] at h
   | ok p =>
@@ -81,7 +81,7 @@ theorem cell_step_denotes (km : KModel α) {h : Heap α} {parameters inputs stat
     (hso : states.sid ≠ outputs.sid)
     (hnP : nP ≤ rows) (hiN : i < N) (hiM : i < M) (hT : T ≤ T')
     {rd : RunDims} (hrd : runDims inputs states outputs = .ok rd)
-    (hK : ∀ p ins st r, km.run p ins st = .ok r →
+    (hK : ∀ p ins st r, ins.length = nI → (∀ s ∈ ins, s.length = T) → st.length = nS → km.run p ins st = .ok r →
       r.outputs.length ≤ nO ∧ (∀ ser ∈ r.outputs, ser.length ≤ T) ∧ r.states.length ≤ nS)
     {s' : List α} {o' : List (List α)}
     (hcs : cellStep km (List.replicate nP none) ((List.range nP).map fun j => (j, 1)) (mat pst pb rows nSets)
@@ -176,7 +176,7 @@ theorem runCellsNd_loop (km : KModel α) {parameters inputs states outputs : Arr
     (his : inputs.sid ≠ states.sid) (hio : inputs.sid ≠ outputs.sid)
     (hnP : nP ≤ rows) (hNM : N ≤ M) (hT : T ≤ T')
     {rd : RunDims} (hrd : runDims inputs states outputs = .ok rd)
-    (hK : ∀ p ins st r, km.run p ins st = .ok r →
+    (hK : ∀ p ins st r, ins.length = nI → (∀ s ∈ ins, s.length = T) → st.length = nS → km.run p ins st = .ok r →
       r.outputs.length ≤ nO ∧ (∀ ser ∈ r.outputs, ser.length ≤ T) ∧ r.states.length ≤ nS)
     (S : Nat → List α) (O : Nat → List (List α))
     (hcell : ∀ k, k < N → cellStep km (List.replicate nP none) ((List.range nP).map fun j => (j, 1))
@@ -257,7 +257,7 @@ theorem runNd_eq_runCells (km : KModel α) {h : Heap α} {parameters inputs stat
     (hso : states.sid ≠ outputs.sid) (hps : parameters.sid ≠ states.sid) (hpo : parameters.sid ≠ outputs.sid)
     (his : inputs.sid ≠ states.sid) (hio : inputs.sid ≠ outputs.sid)
     (hnP : nP ≤ rows) (hNM : N ≤ M) (hT : T ≤ T')
-    (hK : ∀ p ins st r, km.run p ins st = .ok r →
+    (hK : ∀ p ins st r, ins.length = nI → (∀ s ∈ ins, s.length = T) → st.length = nS → km.run p ins st = .ok r →
       r.outputs.length ≤ nO ∧ (∀ ser ∈ r.outputs, ser.length ≤ T) ∧ r.states.length ≤ nS)
     {ss : List (List α)} {os : List (List (List α))}
     (hrun : runCells km (List.replicate nP none) ((List.range nP).map fun j => (j, 1)) (mat pst pb rows nSets)
